@@ -70,6 +70,63 @@ impl<'a, A: Adapter<'a> + 'a> Adapter<'a> for Batching<A> {
 }
 
 // ------------------------------------------------------------------------------------------------
+// Scripted: the general order-preserving adapter of spec/Interp.tla with a bounded buffer, driven by
+// a schedule that TLC generated (binding A).  One global decision string, consumed in execution order:
+//   inside a resolver call (buffer not full, input not ended):  'P' pull one more input | 'R' return the iterator
+//   when asked for an element with a non-empty, non-full buffer: 'P' pull one more input | 'Y' yield the head
+// Forced moves (empty buffer => pull; full buffer or ended input => yield / return) consume nothing.
+// ------------------------------------------------------------------------------------------------
+#[derive(Clone, Default)]
+pub struct Script { pub s: Rc<RefCell<VecDeque<char>>>, pub mismatches: Rc<RefCell<usize>> }
+impl Script {
+    pub fn new(text: &str) -> Self { Script { s: Rc::new(RefCell::new(text.chars().collect())), mismatches: Default::default() } }
+    fn decide(&self, stop: char) -> bool { // true = pull
+        match self.s.borrow_mut().pop_front() {
+            Some('P') => true,
+            Some(c) if c == stop => false,
+            _ => { *self.mismatches.borrow_mut() += 1; false }
+        }
+    }
+    pub fn leftover(&self) -> usize { self.s.borrow().len() }
+}
+pub struct ScriptedIter<I: Iterator> { iter: I, buf: VecDeque<I::Item>, cap: usize, exh: bool, script: Script }
+impl<I: Iterator> ScriptedIter<I> {
+    pub fn new(iter: I, cap: usize, script: Script) -> Self {
+        let mut me = Self { iter, buf: VecDeque::new(), cap, exh: false, script };
+        while me.buf.len() < me.cap && !me.exh && me.script.decide('R') { me.pull(); }
+        me
+    }
+    fn pull(&mut self) { match self.iter.next() { Some(x) => self.buf.push_back(x), None => self.exh = true } }
+}
+impl<I: Iterator> Iterator for ScriptedIter<I> {
+    type Item = I::Item;
+    fn next(&mut self) -> Option<I::Item> {
+        if self.buf.is_empty() { self.pull(); }
+        loop {
+            if self.buf.is_empty() { return None; }
+            if self.buf.len() < self.cap && !self.exh && self.script.decide('Y') { self.pull(); } else { return self.buf.pop_front(); }
+        }
+    }
+}
+#[derive(Clone)]
+pub struct Scripted<A> { pub inner: A, pub cap: usize, pub script: Script }
+impl<'a, A: Adapter<'a> + 'a> Adapter<'a> for Scripted<A> {
+    type Vertex = A::Vertex;
+    fn resolve_starting_vertices(&self, e: &Arc<str>, p: &EdgeParameters, ri: &ResolveInfo) -> VertexIterator<'a, Self::Vertex> {
+        Box::new(ScriptedIter::new(self.inner.resolve_starting_vertices(e, p, ri), self.cap, self.script.clone()))
+    }
+    fn resolve_property<X: AsVertex<Self::Vertex> + 'a>(&self, c: ContextIterator<'a, X>, t: &Arc<str>, p: &Arc<str>, ri: &ResolveInfo) -> ContextOutcomeIterator<'a, X, FieldValue> {
+        Box::new(ScriptedIter::new(self.inner.resolve_property(c, t, p, ri), self.cap, self.script.clone()))
+    }
+    fn resolve_neighbors<X: AsVertex<Self::Vertex> + 'a>(&self, c: ContextIterator<'a, X>, t: &Arc<str>, e: &Arc<str>, p: &EdgeParameters, ri: &ResolveEdgeInfo) -> ContextOutcomeIterator<'a, X, VertexIterator<'a, Self::Vertex>> {
+        Box::new(ScriptedIter::new(self.inner.resolve_neighbors(c, t, e, p, ri), self.cap, self.script.clone()))
+    }
+    fn resolve_coercion<X: AsVertex<Self::Vertex> + 'a>(&self, c: ContextIterator<'a, X>, t: &Arc<str>, to: &Arc<str>, ri: &ResolveInfo) -> ContextOutcomeIterator<'a, X, bool> {
+        Box::new(ScriptedIter::new(self.inner.resolve_coercion(c, t, to, ri), self.cap, self.script.clone()))
+    }
+}
+
+// ------------------------------------------------------------------------------------------------
 // Counting: how many starting vertices / contexts have been pulled so far (shared counters).
 // ------------------------------------------------------------------------------------------------
 #[derive(Clone, Default)]
